@@ -126,6 +126,28 @@ def suffixOfWhole (stream : List Item) (files : List Bytes) : Bool :=
   let fuel := 2 * (items.length + files.length) + 4
   (List.range (items.length + 1)).any (fun j => matchFiles fuel (items.drop j) [] files)
 
+/-- C05, one operation judged on the snapshots before and after it (`prev`, `cur`: retained files
+oldest → newest, the active file last; `x` the bytes of the operation's record; `calls` the
+observed number of `Roll::roll` calls during the operation; `okRes` whether the append returned
+`Ok`). Whole oldest files may have disappeared — at most one per call of the roller and none
+without a call — and everything else is still there, in order, followed by the record:
+* the record went into the old active file, which may then have been archived (or deleted) with it,
+* or the old active file was archived first and the record starts the new one,
+* or (only when the append returned `Err`) the record was not written at all. -/
+def stepOk (calls : Nat) (prev cur : List Bytes) (x : Bytes) (okRes : Bool) : Bool :=
+  let p := prev.dropLast
+  let a := prev.getLast?.getD []
+  let target := cur.flatten
+  (List.range (min calls (p.length + 1) + 1)).any fun m =>
+    ((p ++ [a ++ x]).drop m).flatten == target ||
+    ((p ++ [a]).drop m).flatten ++ x == target ||
+    (!okRes && ((p ++ [a]).drop m).flatten == target)
+
+/-- a restart: append mode changes nothing; truncate mode empties the active file and nothing else -/
+def restartOk (appendMode : Bool) (prev cur : List Bytes) : Bool :=
+  if appendMode then prev.flatten == cur.flatten
+  else prev.dropLast.flatten == cur.flatten && (cur.getLast?.getD []).isEmpty
+
 /-! ### C17 — the statement as a function on the retention window (newest first) -/
 
 /-- the statement's rotation: the rolled content becomes the newest archive, at most `count` kept;
